@@ -74,6 +74,13 @@ def ix_for(f, ix):
     return 'int0' if ix == 'range' and f['rows'] != list(range(1, len(f['rows']) + 1)) else ix
 
 
+def make_index(codes, ix, offsets):
+    labs = [label_of(r, ix, offsets) for r in codes]
+    if ix == 'date':
+        return pd.DatetimeIndex(labs)
+    return pd.Index(labs, dtype={'int0': 'int64', 'int': 'int64', 'float': 'float64', 'str': object, 'range': 'int64'}[ix])
+
+
 def build(f, carrier, offsets, ix='date', style=0):
     n, k = len(f['rows']), len(f['cols'])
     a = np.full((n, k), np.nan)
@@ -88,8 +95,7 @@ def build(f, carrier, offsets, ix='date', style=0):
     ix = ix_for(f, ix)
     if ix == 'range':
         return pd.Series(a[:, 0].copy()) if carrier == 'ser' else pd.DataFrame(a, columns=colnames(k, style))
-    labs = [label_of(r, ix, offsets) for r in f['rows']]
-    idx = pd.DatetimeIndex(labs) if ix == 'date' else pd.Index(labs, dtype={'int0': 'int64', 'int': 'int64', 'float': 'float64', 'str': object}[ix])
+    idx = make_index(f['rows'], ix, offsets)
     if carrier == 'ser':
         return pd.Series(a[:, 0].copy(), idx)
     if carrier == 'df':
@@ -278,6 +284,8 @@ def observe(case):
     """case: {op, f, ms, lim, edge, value, spell, style, offsets, ix, calls} -> the observation of Trace_Fill"""
     if case['op'] == 'session':
         return observe_session(case)
+    if case['op'] == 'psession':
+        return observe_psession(case)
     from pyg_base import df_fillna, nona
     f, offsets, style = case['f'], case.get('offsets') or S2C_OFFSETS, case.get('style', 0)
     k = len(f['cols'])
@@ -343,6 +351,121 @@ def observe_session(case):
             'style': style, 'ix': ix, 'lab': case.get('lab', ''), 'calls': case['calls'], 'runs': runs}
 
 
+def derive(r, d, carrier, n0, offsets, ix):
+    """the caller's own action between two calls (Fill.tla Derive), done the way a caller does it with pandas / numpy; `poke`
+    edits the object IN PLACE (a read-only array - what pandas hands out as .values - has to be copied first)"""
+    kind, nan = d['kind'], float('nan')
+    if carrier in ('arr1', 'arr2'):
+        if kind == 'extend':
+            return np.concatenate([r, np.full((d['k'],) + r.shape[1:], nan)])
+        if kind == 'lag':
+            return np.concatenate([np.full((1,) + r.shape[1:], nan), r[:-1]]) if r.shape[0] else r.copy()
+        if kind == 'poke':
+            if not r.flags.writeable:
+                r = np.array(r)
+            if r.ndim == 1 or d['j'] == 0:
+                r[d['i'] - 1] = nan
+            else:
+                r[d['i'] - 1, d['j'] - 1] = nan
+            return r
+        if kind == 'head':
+            return r[:-1]
+        if kind == 'tail':
+            return r[1:]
+        if kind == 'copy':
+            return r.copy()
+        if kind == 'values':
+            return np.array(r.tolist(), dtype=float).reshape(r.shape)
+        if kind == 'arith':
+            return r * 1
+        raise ValueError(kind)
+    if kind == 'extend':
+        top = max([n0] + [c for c in labels(r.index, offsets, ix) if c > 0])
+        return r.reindex(r.index.append(make_index(list(range(top + 1, top + 1 + d['k'])), ix, offsets)))
+    if kind == 'calendar':
+        return r.reindex(make_index(list(range(1, n0 + d['k'] + 1)), ix, offsets))
+    if kind == 'lag':
+        return r.shift(1)
+    if kind == 'poke':
+        if carrier == 'ser':
+            r.iloc[d['i'] - 1] = nan
+        elif d['j'] == 0:
+            r.iloc[d['i'] - 1, :] = nan
+        else:
+            r.iloc[d['i'] - 1, d['j'] - 1] = nan
+        return r
+    if kind == 'head':
+        return r.iloc[:-1]
+    if kind == 'tail':
+        return r.iloc[1:]
+    if kind == 'copy':
+        return r.copy()
+    if kind == 'values':
+        return pd.Series(r.values.copy(), r.index) if carrier == 'ser' else pd.DataFrame(r.values.copy(), r.index, r.columns)
+    if kind == 'arith':
+        return r * 1
+    raise ValueError(kind)
+
+
+LABEL_KINDS = ('calendar',)          # derivations that need labels: not done to an array
+
+
+def observe_psession(case):
+    """a process session (Fill.tla): calls and the caller's own actions, in order, in this one process.  acts: {a: call, src:
+    x / y / cur, ms, lim} or {a: der, d}.  x and y are built once; `cur` is the working object (the previous result or what
+    the caller derived from it).  After every step: the working object, both inputs re-read, the object passed as input"""
+    from pyg_base import df_fillna
+    f, g, offsets, style = case['f'], case['g'], case.get('offsets') or S2C_OFFSETS, case.get('style', 0)
+    k, n0 = len(f['cols']), len(f['rows'])
+    ix = ix_for(f, case.get('ix', 'date'))
+    pandas_only = any(a['a'] == 'der' and a['d']['kind'] in LABEL_KINDS for a in case['acts'])
+    carriers = [c for c in carriers_of(f) if not (pandas_only and c in ('arr1', 'arr2'))]
+    if any('frac' in a['d'] for a in case['acts']):
+        carriers = [carriers[case.get('style', 0) % len(carriers)]]      # the recorded history is the one of this carrier
+    runs = []
+    for carrier in carriers:
+        acts = [dict(a) for a in case['acts']]
+        x, y = build(f, carrier, offsets, ix, style), build(g, carrier, offsets, ix, style)
+        cur, steps = None, []
+        for a in acts:
+            if a['a'] == 'der':
+                if 'frac' in a['d']:             # C2S: the row is chosen on the object as it is now (and recorded); an input
+                    d, nr = a['d'], cur.shape[0]     # object handed back by an empty method list is copied, not edited
+                    a['d'] = ({'kind': 'poke', 'k': 0, 'i': 1 + int(d['frac'] * nr), 'j': d['j']} if nr and cur is not x and cur is not y
+                              else {'kind': 'copy', 'k': 0, 'i': 0, 'j': 0})
+                try:
+                    with warnings.catch_warnings():
+                        warnings.simplefilter('ignore')
+                        cur = derive(cur, a['d'], carrier, n0, offsets, ix)
+                    out = enc_out(cur, carrier, k, offsets, ix, style)
+                except Exception as e:
+                    out = exc_out(e)
+                inp_after = out
+            else:
+                inp = x if a['src'] == 'x' else y if a['src'] == 'y' else cur
+                try:
+                    with warnings.catch_warnings():
+                        warnings.simplefilter('ignore')
+                        res = df_fillna(inp, render_methods(a['ms'], style), limit=None if a['lim'] == 0 else a['lim'])
+                except Exception as e:
+                    res, out = RAISED, exc_out(e)
+                if res is not RAISED:
+                    out, cur = enc_out(res, carrier, k, offsets, ix, style), res
+                inp_after = enc_out(inp, carrier, k, offsets, ix, style)
+            steps.append({'out': out, 'after': enc_after(x, carrier, k, offsets, ix, style), 'after_y': enc_after(y, carrier, k, offsets, ix, style),
+                          'inp_after': {'rows': inp_after['rows'], 'cols': inp_after['cols']}})
+            if out['kind'] == 'exc':
+                break
+        while len(steps) < len(acts):        # nothing is done after a step that raised
+            steps.append(steps[-1])
+        runs.append({'carrier': carrier, 'steps': steps})
+    for a in acts:
+        if 'frac' in a['d']:                 # never reached (a step before it raised): any well-formed derivation
+            a['d'] = {'kind': 'copy', 'k': 0, 'i': 0, 'j': 0}
+    return {'op': 'psession', 'f': f, 'g': g, 'ms': [], 'lim': 0, 'edge': 0, 'value': NAN, 'spell': 'default',
+            'style': style, 'ix': ix, 'lab': case.get('lab', ''), 'acts': acts, 'runs': runs}
+
+
 def form_of(ms):
     if len(ms) == 0:
         return 'empty'
@@ -353,7 +476,7 @@ def form_of(ms):
 
 def outs_of(o, carrier=None):
     runs = [r for r in o['runs'] if carrier is None or r['carrier'] == carrier]
-    return [s['out'] for r in runs for s in r['steps']] if o['op'] == 'session' else [r['out'] for r in runs]
+    return [s['out'] for r in runs for s in r['steps']] if o['op'] in ('session', 'psession') else [r['out'] for r in runs]
 
 
 def case_key(o, carrier=None):
@@ -365,6 +488,9 @@ def case_key(o, carrier=None):
         op, form = 'df_fillna', form_of(ms)
     elif o['op'] == 'nona':
         op, form = 'nona', 'edge%d' % o['edge']
+    elif o['op'] == 'psession':
+        op, form = 'psession', '+'.join(a['src'] if a['a'] == 'call' else 'der:' + a['d']['kind'] for a in o['acts'])
+        ms = [m for a in o['acts'] for m in a['ms']]
     else:
         op, form = 'session', '+'.join(c['src'] + ':' + c['obj'] for c in o['calls'])
     c = {'op': op, 'form': form,
@@ -374,6 +500,8 @@ def case_key(o, carrier=None):
          'spell': o.get('spell', 'default'), 'ix': o.get('ix', 'date'), 'lab': o.get('lab', ''), 'style': o.get('style', 0), 'f': o['f']}
     if o['op'] == 'session':
         c['calls'] = o['calls']
+    if o['op'] == 'psession':
+        c['acts'], c['g'] = o['acts'], o['g']
     if carrier:
         c['carrier'] = carrier
     return c
@@ -468,6 +596,43 @@ def session_chunk(cases):
     return res
 
 
+def psession_chunk(cases):
+    """replay TLC's process sessions: every step of every carrier against the single contents TLC printed after that step (==)
+    - the result of a call, the object the caller derived -, both input objects and the object passed as input re-read"""
+    res = []
+    for case in cases:
+        f = case['x']
+        g = case['y'] if case['y']['cols'] else f          # NoY: the history builds no second input
+        acts = [{'a': h['a'], 'src': h['src'], 'ms': h['ms'], 'lim': h['lim'], 'd': h['d']} for h in case['hist']]
+        style = case.get('style', 0)
+        o = observe(dict(op='psession', f=f, g=g, acts=acts, style=style, ix=IX_KINDS[style % len(IX_KINDS)]))
+        viol, deferred = [], []
+        nevals = sum(1 for r in o['runs'] for a in acts if a['a'] == 'call')
+        if any(len(h['want']) != 1 for h in case['hist']):
+            deferred.append(o)
+        else:
+            for r in o['runs']:
+                cr, win = r['carrier'], None
+                for s, h in zip(r['steps'], case['hist']):
+                    w = h['want'][0]
+                    before = len(viol)
+                    src = {'x': f, 'y': g}.get(h['src'], win)
+                    if s['after'] != exp_after(f, cr) or s['after_y'] != exp_after(g, cr):
+                        viol.append(('input_modified', case_key(o, cr), {'after': s['after'], 'after_y': s['after_y']}))
+                    elif h['a'] == 'der':
+                        if s['out']['kind'] != 'val' or s['out']['dim'] != DIM[cr] or s['out']['cols'] != w['cols'] or (cr in ('ser', 'df') and s['out']['rows'] != w['rows']):
+                            viol.append(('derived_input', case_key(o, cr), {'expected': w, 'observed': s['out']}))
+                    elif s['inp_after']['cols'] != src['cols'] or (cr in ('ser', 'df') and s['inp_after']['rows'] != src['rows']):
+                        viol.append(('input_modified', case_key(o, cr), {'input_after': s['inp_after'], 'input_before': src}))
+                    else:
+                        compare_run(viol, o, cr, s['out'], s['after'], f, w, w['cols'])
+                    if len(viol) > before:
+                        break            # later steps build on this one
+                    win = w
+        res.append((viol, deferred, nevals, nontrivial(f, outs_of(o))))
+    return res
+
+
 def c2s_chunk(cases):
     return [observe(c) for c in cases]
 
@@ -507,7 +672,8 @@ def s2c(ctx, cases, tag, chunk_fn=s2c_chunk):
         ctx.evals += nevals
         ctx.traces += 1
         if nt:
-            ctx.note(('s2c', tag, repr((case.get('f', case.get('x'))['cols'], case.get('ms', case.get('m')), case['lim'], case.get('par'), case.get('hist') and [h['c'] for h in case['hist']]))))
+            ctx.note(('s2c', tag, repr((case.get('f', case.get('x'))['cols'], case.get('ms', case.get('m')), case.get('lim'), case.get('par'), case.get('y'),
+                                        case.get('hist') and [h.get('c') or (h['src'], h['ms'], h['lim'], h['d']) for h in case['hist']]))))
         if i % 20011 == 7:
             ctx.sample({'s2c_case_' + tag: case})
     DEFERRED.extend(deferred)            # judged by Trace_Fill together with the C2S observations (one TLC run)
@@ -520,7 +686,7 @@ def judge(ctx, obs):
     bad = ctx.validate('Trace_Fill', obs)
     for i, clause in bad:
         o = obs[i - 1]
-        runs = [{'carrier': r['carrier'], 'steps': [s['out'] for s in r['steps']]} if o['op'] == 'session' else {'carrier': r['carrier'], 'out': r['out']}
+        runs = [{'carrier': r['carrier'], 'steps': [s['out'] for s in r['steps']]} if o['op'] in ('session', 'psession') else {'carrier': r['carrier'], 'out': r['out']}
                 for r in o['runs']]
         PENDING.append((clause, case_key(o), {'runs': runs}))
     return bad
@@ -658,8 +824,54 @@ def rand_case_x(rng):
     return {'op': 'session', 'f': f, 'ms': m, 'lim': lim, 'calls': calls, 'style': style, 'offsets': offs, 'ix': rng.choice(['date', 'date', 'range', 'int'])}
 
 
-def c2s(ctx, ncases, nx):
-    cases = [rand_case(ctx.rng) for _ in range(ncases)] + [rand_case_x(ctx.rng) for _ in range(nx)]
+NO_D = {'kind': '', 'k': 0, 'i': 0, 'j': 0}
+
+
+def rand_psession(rng):
+    """a process session at random: 2-4 calls on a vector / frame x, on another input y of the same shape and on the working
+    object, with the caller's derivations in between (the row of a poke is chosen when the history is run)"""
+    f, offs = rand_frame(rng)
+    n, k = len(f['rows']), len(f['cols'])
+    g = {'rows': list(f['rows']), 'cols': [rand_column(rng, n) for _ in range(k)]}
+    if rng.random() < 0.15:
+        g['cols'] = [list(c) for c in f['cols']]             # equal by value, another object
+    if rng.random() < 0.15:
+        strangify(rng, f, STRANGE)
+    t = offs[-1] if offs else 0
+    for _ in range(12):                                      # later labels for the reindexes
+        t += rng.choice([1, 1, 2, 3, 7])
+        offs.append(t)
+    def call(src, like=None):
+        ms = rand_methods(rng, ALL_NAMES) if like is None or rng.random() < 0.4 else like
+        return {'a': 'call', 'src': src, 'ms': ms, 'lim': rng.choice([0, 0, 0, 1, 2, 3, max(n, 1)]), 'd': NO_D}
+    acts = [call('x')]
+    if not acts[0]['ms'] and rng.random() < 0.8:
+        acts[0]['ms'] = [[rng.choice(ALL_NAMES[:2] + ALL_NAMES[3:]), 0]]
+    ncalls, ext, nder = rng.choice([2, 2, 3, 4]), 0, 0
+    while sum(a['a'] == 'call' for a in acts) < ncalls:
+        last = [a for a in acts if a['a'] == 'call'][-1]['ms']
+        if (nder == 0 and rng.random() < 0.55) or (nder == 1 and rng.random() < 0.25):
+            kind = rng.choice(['extend', 'extend', 'calendar', 'lag', 'lag', 'poke', 'poke', 'head', 'tail', 'copy', 'values', 'arith'])
+            if kind in ('extend', 'calendar') and ext >= 3:
+                kind = 'lag'
+            if kind == 'poke':
+                d = {'kind': 'poke', 'k': 0, 'frac': rng.random(), 'i': 0, 'j': rng.randrange(0, k + 1) if k > 1 else 0}
+            elif kind in ('extend', 'calendar'):
+                d = {'kind': kind, 'k': rng.choice([0, 1, 2, 3]) if kind == 'calendar' else rng.choice([1, 2, 3]), 'i': 0, 'j': 0}
+                ext += 1
+            else:
+                d = {'kind': kind, 'k': 0, 'i': 0, 'j': 0}
+            acts.append({'a': 'der', 'src': 'cur', 'ms': [], 'lim': 0, 'd': d})
+            nder += 1
+        else:
+            acts.append(call('cur' if nder else rng.choice(['x', 'y', 'y', 'cur']), last))
+            nder = 0
+    return {'op': 'psession', 'f': f, 'g': g, 'acts': acts, 'style': rng.randrange(0, 12), 'offsets': offs,
+            'ix': rng.choice(['date', 'date', 'range', 'int', 'str', 'float'])}
+
+
+def c2s(ctx, ncases, nx, nps=0):
+    cases = [rand_case(ctx.rng) for _ in range(ncases)] + [rand_case_x(ctx.rng) for _ in range(nx)] + [rand_psession(ctx.rng) for _ in range(nps)]
     obs = pmap(c2s_chunk, cases, chunk=100)
     ctx.evals += sum(len(r.get('steps', [0])) for o in obs for r in o['runs'])
     judge(ctx, obs + DEFERRED)
@@ -667,7 +879,7 @@ def c2s(ctx, ncases, nx):
     for o in obs:
         if nontrivial(o['f'], outs_of(o)):
             ctx.note(('c2s', repr((o['f']['cols'], o['f']['rows'] if o.get('lab') else 0, o['ms'], o['lim'], o['op'], o['edge'], o['value'], o['spell'],
-                                   o.get('calls')))))
+                                   o.get('calls'), o.get('acts'), o.get('g')))))
     ctx.sample({'c2s_observation': obs[ncases // 2]})
     ctx.sample({'c2s_observation_x': obs[ncases + nx // 2]})
     return obs
@@ -677,7 +889,8 @@ def replay(ctx, body):
     """./check C12 --replay <file>: run the recorded case again and let Trace_Fill judge it"""
     import json, shutil
     c = body['case']
-    o = observe({'op': {'df_fillna': 'fillna', 'nona': 'nona', 'session': 'session'}[c['op']], 'f': c['f'], 'ms': c['ms'], 'lim': c['lim'],
+    o = observe({'op': {'df_fillna': 'fillna', 'nona': 'nona', 'session': 'session', 'psession': 'psession'}[c['op']], 'f': c['f'], 'ms': c['ms'], 'lim': c['lim'],
+                 'g': c.get('g'), 'acts': c.get('acts', []),
                  'edge': c['edge'], 'value': c.get('value', NAN), 'spell': c.get('spell', 'default'), 'ix': c.get('ix', 'date'),
                  'lab': c.get('lab', ''), 'calls': c.get('calls', []), 'style': c.get('style', 1)})
     bad = ctx.validate('Trace_Fill', [o])
